@@ -134,4 +134,98 @@ theorem src_filterContainedBy_exact (c : Coll) (hc : WF c) :
     IsFilterOf qc c (Src.Coll.filterContainedBy qdt xi xc qc c ()) := by
   rw [filterContainedBy_eq]; exact filterContainedBy_exact c hc xc qc
 
+/-! ### the list protocol (`__contains__`, `__iter__`, `__len__`, `__getitem__`, `__eq__`)
+
+Every method hands the question to the list `self.geoshapes`; the builtin list's dunder methods are read as the
+model's list functions (`sameOrEq` membership, `getIdx`, `getSlice`, `listEq`), so what is proved is that the
+collection delegates to *that* list, unchanged, and to the right operation. -/
+
+theorem contains_eq (c : Coll) (item : Shape) : Src.Coll.contains qdt xi xc qc c item = c.contains item := by
+  simp only [Src.Coll.contains, Coll.contains]
+
+theorem iter_eq (c : Coll) :
+    Src.Coll.iter qdt xi xc qc c = c.iter ∧ Src.Coll.fcIter qdt xi xc qc c = c.iter := by
+  simp only [Src.Coll.iter, Src.Coll.fcIter, Coll.iter, and_self]
+
+theorem len_eq (c : Coll) :
+    Src.Coll.len qdt xi xc qc c = c.len ∧ Src.Coll.fcLen qdt xi xc qc c = c.len := by
+  simp only [Src.Coll.len, Src.Coll.fcLen, Coll.len, and_self]
+
+/-- `collection[i]` -/
+theorem fcGetIdx_eq (c : Coll) (i : Int) : Src.Coll.fcGetIdx qdt xi xc qc c i = c.getIdx i := by
+  simp only [Src.Coll.fcGetIdx]; rfl
+
+/-- `collection[a:b:s]` -/
+theorem fcGetSlice_eq (c : Coll) (a b s : Option Int) :
+    Src.Coll.fcGetSlice qdt xi xc qc c (a, b, s) = c.getSlice a b s := by
+  simp only [Src.Coll.fcGetSlice]; rfl
+
+/-- `FeatureCollection.__eq__`, per class of the other operand (anything that is not a collection: `False`) -/
+theorem fcEq_eq (a b : Coll) (u : Unit) :
+    (b.tag = .fc → Src.Coll.fcEqFc qdt xi xc qc a b = a.eqFC b) ∧
+    (b.tag = .track → Src.Coll.fcEqTrack qdt xi xc qc a b = a.eqFC b) ∧
+    Src.Coll.fcEqOther qdt xi xc qc a u = false := by
+  refine ⟨?_, ?_, ?_⟩
+  · intro hb; simp [Src.Coll.fcEqFc, eqFC, hb]
+  · intro hb; simp [Src.Coll.fcEqTrack, eqFC, hb]
+  · simp [Src.Coll.fcEqOther]
+
+/-- `Track.__eq__`, per class of the other operand -/
+theorem trackEq_eq (a b : Coll) (u : Unit) :
+    (b.tag = .track → Src.Coll.trackEqTrack qdt xi xc qc a b = a.eqTrack b) ∧
+    (b.tag = .fc → Src.Coll.trackEqFc qdt xi xc qc a b = a.eqTrack b) ∧
+    Src.Coll.trackEqOther qdt xi xc qc a u = false := by
+  refine ⟨?_, ?_, ?_⟩
+  · intro hb; simp [Src.Coll.trackEqTrack, eqTrack, hb]
+  · intro hb; simp [Src.Coll.trackEqFc, eqTrack, hb]
+  · simp [Src.Coll.trackEqOther]
+
+/-- `a == b` of the source, by the class of the left operand, is the model's `eqColl` (what the `list-eq` stream runs) -/
+theorem eqColl_eq (a b : Coll) :
+    (a.tag = .fc → b.tag = .fc → Src.Coll.fcEqFc qdt xi xc qc a b = eqColl a b) ∧
+    (a.tag = .fc → b.tag = .track → Src.Coll.fcEqTrack qdt xi xc qc a b = eqColl a b) ∧
+    (a.tag = .track → b.tag = .track → Src.Coll.trackEqTrack qdt xi xc qc a b = eqColl a b) ∧
+    (a.tag = .track → b.tag = .fc → Src.Coll.trackEqFc qdt xi xc qc a b = eqColl a b) := by
+  refine ⟨?_, ?_, ?_, ?_⟩ <;> intro ha hb <;>
+    simp [Src.Coll.fcEqFc, Src.Coll.fcEqTrack, Src.Coll.trackEqTrack, Src.Coll.trackEqFc, eqColl, eqFC, eqTrack, ha, hb]
+
+/-- `==` of the translated source is symmetric on FeatureCollections -/
+theorem src_fcEq_symm (a b : Coll) (ha : a.tag = .fc) (hb : b.tag = .fc) :
+    Src.Coll.fcEqFc qdt xi xc qc a b = Src.Coll.fcEqFc qdt xi xc qc b a := by
+  rw [((fcEq_eq qdt xi xc qc a b ()).1 hb), ((fcEq_eq qdt xi xc qc b a ()).1 ha)]
+  exact eqFC_symm a b ha hb
+
+/-- the list-protocol laws of C18, restated for the translated source -/
+theorem src_contains_iff (c : Coll) (item : Shape) :
+    Src.Coll.contains qdt xi xc qc c item = true ↔ ∃ x ∈ c.shapes, x.id = item.id ∨ x.eqc = item.eqc := by
+  rw [contains_eq]; exact contains_iff c item
+
+theorem src_getIdx (c : Coll) :
+    (∀ (i : Nat) (h : i < c.shapes.length), Src.Coll.fcGetIdx qdt xi xc qc c (i : Int) = .ok c.shapes[i]) ∧
+    (∀ (k : Nat) (h1 : 1 ≤ k) (h : k ≤ c.shapes.length),
+      Src.Coll.fcGetIdx qdt xi xc qc c (-(k : Int)) = .ok (c.shapes[c.shapes.length - k]'(by omega))) ∧
+    (∀ i : Int, i ≥ c.shapes.length ∨ i < -(c.shapes.length : Int) →
+      Src.Coll.fcGetIdx qdt xi xc qc c i = .error "ERR:Index") := by
+  refine ⟨fun i h => ?_, fun k h1 h => ?_, fun i h => ?_⟩ <;> rw [fcGetIdx_eq]
+  · exact getIdx_nonneg c i h
+  · exact getIdx_neg c k h1 h
+  · exact getIdx_out c i h
+
+theorem src_getSlice (c : Coll) :
+    Src.Coll.fcGetSlice qdt xi xc qc c (none, none, none) = .ok c.shapes ∧
+    Src.Coll.fcGetSlice qdt xi xc qc c (none, none, some (-1)) = .ok c.shapes.reverse ∧
+    (∀ a b, Src.Coll.fcGetSlice qdt xi xc qc c (a, b, some 0) = .error "ERR:Value") := by
+  refine ⟨?_, ?_, fun a b => ?_⟩ <;> rw [fcGetSlice_eq]
+  · exact getSlice_full c
+  · exact getSlice_reverse c
+  · exact getSlice_step0 c a b
+
+/-- `==` of two feature collections holding the same shape objects in the same order is true; a Track is never equal -/
+theorem src_fcEq_refl (a : Coll) : Src.Coll.fcEqFc qdt xi xc qc a a = true := by
+  have h : ∀ l : List Shape, listEq l l = true := by
+    intro l; induction l with
+    | nil => rfl
+    | cons x xs ih => simp [listEq, sameOrEq, ih]
+  simp [Src.Coll.fcEqFc, h]
+
 end GV.C18Src
